@@ -197,9 +197,10 @@ def main(argv=None):
             else:
                 crashes.append((u.name, e))
         if not r['obligations'] and not r['errors']:
-            crashes.append((u.name, 'vacuity: unit produced zero obligations'))
+            # on changed code "no obligation was reached" means the contract no longer fits the function: undecided, not a checker fault
+            (undecided if changed else crashes).append((u.name, 'vacuity: unit produced zero obligations'))
         if r.get('feasible_paths', 0) == 0 and not r['errors']:
-            crashes.append((u.name, 'vacuity: no feasible path (contradictory precondition?)'))
+            (undecided if changed else crashes).append((u.name, 'vacuity: no feasible path (contradictory precondition?)'))
         inlined |= set(r['inlined'])
         externs |= set(r['externs'])
         names = []
